@@ -71,7 +71,8 @@
 (*      outcome says (created, deleted, else unchanged)                    *)
 (*                                                                         *)
 (* Deliberately free (documentation silent or contradictory; see notes):   *)
-(*  what a FAILED registration leaves in the registry; duplicate           *)
+(*  what a registration that FAILED because of a missing class or in       *)
+(*  post_register_setup leaves in the registry (see RegApply); duplicate   *)
 (*  registration (refuse or replace); post_register_setup raising; a       *)
 (*  provider returning a wrong type or raising a non-CIMError; instance of *)
 (*  an abstract class (docstring says rejected, change log says tolerated);*)
